@@ -661,6 +661,18 @@ def simplify_line(line):
                     yield " ".join(t[:i] + ["%s%d.1" % (m.group(1), k)] + t[i + 1:])
 
 
+def extra(ctx):
+    """housekeeping only: remove the scratch directories of harness processes that died in a sanitizer abort
+    (a live harness removes its own at exit; directory names carry the pid)"""
+    import glob
+    import shutil
+    for d in glob.glob("/tmp/aslc17-*") + glob.glob("/dev/shm/aslc17-*"):
+        m = re.match(r".*/aslc17-(\d+)-", d)
+        if m and not os.path.exists("/proc/" + m.group(1)):
+            shutil.rmtree(d, ignore_errors=True)
+    return []
+
+
 # ------------------------------------------------------------------------------------------------ reporting
 
 RULE = ("cases = (A) every size class (0..39, around 254k/255k, 4096, 65536k, up to 200000 / 16 MiB in the thorough tier) written through "
@@ -745,7 +757,7 @@ ASSUMPTIONS = ["fopen modes (C11 7.21.5.3): r needs the file, w creates/truncate
 TECHNIQUE = ("Lean 4 theorems (induction over byte lists / histories) about an executable model of File, TextFile and Directory::copy/move "
              "whose constants are regenerated from the source + differential correspondence check against the real library on real files")
 LEVEL_TEXT = ("Proved in Lean 4 about the executable model the driver runs (AslModel/FileText.lean), for ALL inputs: lines() = split at LF with "
-              "one CR removed before each LF, for every content, every line length, with or without final newline, the empty file, and every "
+              "one CR removed before each LF, for every NUL-free content, every line length, with or without final newline, the empty file, and every "
               "fgets chunk size >= 2 (lines_spec; 255 is regenerated from the source); each readLine(String&) call returns the next line and "
               "leaves the stream behind its LF, the last unterminated piece sets EOF (readLine_lf, readLine_last); text() returns a file "
               "without byte-order mark unchanged, drops the UTF-8 signature, and returns every NUL-free scalar-value sequence behind a "
